@@ -624,3 +624,124 @@ def translate_guards(repo='/repo', tu=None):
                    'Definition %s_returns_early (count : Z) : bool := %s.\nDefinition %s_early_value : bool := %s.' % (len(gs), name, cond, name, val))
     return ('(* GENERATED by props/C17/sel2coq.py (on tools/cxx2coq.py) from HashSorter.h: entry guards of pvFindHash / pvIsSorted -- do not edit *)\n\n'
             'From Coq Require Import ZArith Bool List.\nFrom MomoCommon Require Import GenPrelude.\nLocal Open Scope Z_scope.\n\n' + '\n\n'.join(out) + '\n')
+
+
+# ======================================================================================================================
+# grow round 4: the interpolation loop of HashSorter::pvFindHash, translated from the source
+class FhFn(RxFn):
+    """iterHashFunc(SMath::Next(begin, e)) reads the state array `hash`; pvMultShift / pvGetStepCount are the generated
+    leaves (Gen_Leaves); the lambdas and `auto res = pvExponentialSearch(ReverseIterator ...)` are not translated: every
+    `return` of the function is replaced by an EXIT CODE saying which continuation the source takes there
+      1 = `{ begin, false }` (empty sequence)          2 = pvExponentialSearch(Next(begin, leftIndex), rightIndex - leftIndex, iterComparer)
+      3 = the reverse pvExponentialSearch branch        4 = `{ Next(begin, middleIndex), true }`
+      5 = pvBinarySearch(Next(begin, leftIndex), rightIndex - leftIndex, iterComparer)   (after a `break`)
+    The continuations themselves are the hand model's sub-searches (SorterSearch.v); the loop state at the exit is part of the
+    generated loop function's result."""
+    def e(self, n):
+        oi = opinfo(n)
+        if oi is not None and oi[0] == 'operator()' and oi[1] == 'iterHashFunc':
+            return '(hash %s)' % self.pos(oi[2][0])
+        ci = callinfo(n)
+        if ci is not None and ci[0] in ('pvMultShift', 'pvGetStepCount'):
+            return '(Gen_Leaves.%s %s)' % (ci[0], ' '.join(self.e(a) for a in ci[1]))
+        return super().e(n)
+
+    def used_names(self, n, acc):
+        oi = opinfo(n) if isinstance(n, dict) and n.get('kind') == 'CXXOperatorCallExpr' else None
+        if oi is not None and oi[1] == 'iterHashFunc':
+            acc.add('hash')
+        return super().used_names(n, acc)
+
+    def decl(self, s, rest):
+        vs = [v for v in s.get('inner', []) if v.get('kind') == 'VarDecl']
+        if len(vs) == 1 and vs[0]['name'] in ('iterComparer', 'revCompareFunc', 'res'):
+            return rest()
+        return super().decl(s, rest)
+
+    def ret_stmt(self, v, jc):
+        txt = json.dumps(v)
+        def has(name):
+            return ('"name": "%s"' % name) in txt
+        lits = []
+        def walk(n):
+            if isinstance(n, dict):
+                if n.get('kind') == 'CXXBoolLiteralExpr':
+                    lits.append(bool(n['value']))
+                for c in n.get('inner', []):
+                    walk(c)
+        walk(v)
+        if has('pvBinarySearch'): code = 5
+        elif has('pvExponentialSearch'): code = 2
+        elif has('res'): code = 3
+        elif lits == [True] and has('middleIndex'): code = 4
+        elif lits == [False]: code = 1
+        else:
+            raise TranslationError('pvFindHash: unrecognised return statement')
+        return jc['ret']('(%d)' % code)
+
+
+def translate_findhash(repo='/repo', tu=None):
+    tu = tu or os.path.join(os.path.dirname(os.path.abspath(__file__)), 'inst_hs.cpp')
+    cfg = {'tu': tu, 'filter': 'HashSorter', 'includes': [os.path.join(repo, 'include')]}
+    objs = cxx2coq.load_objs(cxx2coq.dump_ast(cfg, repo))
+    ds = [d for d in _methods(objs, 'pvFindHash') if any(c.get('kind') == 'TemplateArgument' for c in d.get('inner', []))]
+    if len(ds) != 1:
+        raise TranslationError('expected one instantiated HashSorter::pvFindHash, found %d' % len(ds))
+    d = dict(ds[0]); d.pop('storageClass', None)
+    cfgf = {'name': 'Gen_FindHash', 'fields': {'hash': 'array'}, 'functions': [],
+            'functor_params': {'pvFindHash': {'iterHashFunc': 'skip'}}, 'ret_types': {'pvFindHash': 'unsigned long'},
+            'fuel': {'pvFindHash': '5%nat'}}
+    f = FhFn(cxx2coq.Ctx(cfgf), d, 'pvFindHash')
+    try:
+        txt = f.gen()
+    except TranslationError as ex:
+        raise TranslationError('pvFindHash: %s' % ex)
+    return ('(* GENERATED by props/C17/sel2coq.py (on tools/cxx2coq.py) from HashSorter.h: the interpolation loop of pvFindHash;\n'
+            '   returns are exit codes (see sel2coq.FhFn) -- do not edit *)\n\n'
+            'From Coq Require Import ZArith Bool List.\nFrom MomoCommon Require Import GenPrelude.\nFrom C17 Require Gen_Leaves.\n'
+            'Local Open Scope Z_scope.\n\n' + txt + '\n')
+
+
+# ======================================================================================================================
+# grow round 4, part 2: HashSorter::pvGroup, translated from the source
+class GrpFn(SelFn):
+    """equalFunc(*SMath::Next(begin, a), *SMath::Next(begin, b)) -> (eqf (items a) (items b)) with `items` = item handle at each
+    position (ghost state, permuted by iterSwapper) and eqf a Section variable of Gen_Group.v"""
+    def e(self, n):
+        oi = opinfo(n)
+        if oi is not None and oi[0] == 'operator()' and oi[1] == 'equalFunc':
+            a, b = [self.deref_pos(x) for x in oi[2]]
+            return '(eqf (items %s) (items %s))' % (a, b)
+        return super().e(n)
+
+    def deref_pos(self, n):
+        t = strip_casts(n)
+        if t.get('kind') == 'UnaryOperator' and t.get('opcode') == '*':
+            return self.pos(t['inner'][0])
+        raise TranslationError('equalFunc argument is not *Next(begin, e)')
+
+    def used_names(self, n, acc):
+        oi = opinfo(n) if isinstance(n, dict) and n.get('kind') == 'CXXOperatorCallExpr' else None
+        if oi is not None and oi[1] == 'equalFunc':
+            acc.add('items')
+        return super().used_names(n, acc)
+
+
+def translate_group(repo='/repo', tu=None):
+    tu = tu or os.path.join(os.path.dirname(os.path.abspath(__file__)), 'inst_hs.cpp')
+    cfg = {'tu': tu, 'filter': 'HashSorter', 'includes': [os.path.join(repo, 'include')]}
+    objs = cxx2coq.load_objs(cxx2coq.dump_ast(cfg, repo))
+    ds = [d for d in _methods(objs, 'pvGroup') if any(c.get('kind') == 'TemplateArgument' for c in d.get('inner', []))]
+    if len(ds) < 1:
+        raise TranslationError('no instantiated HashSorter::pvGroup')
+    d = dict(ds[0]); d.pop('storageClass', None)
+    cfgf = {'name': 'Gen_Group', 'fields': {'items': 'array'}, 'functions': [],
+            'functor_params': {'pvGroup': {'equalFunc': 'skip', 'iterSwapper': 'skip'}}, 'fuel': {'pvGroup': 'loop_fuel'}}
+    f = GrpFn(cxx2coq.Ctx(cfgf), d, 'pvGroup')
+    try:
+        txt = f.gen()
+    except TranslationError as ex:
+        raise TranslationError('pvGroup: %s' % ex)
+    return ('(* GENERATED by props/C17/sel2coq.py (on tools/cxx2coq.py) from HashSorter.h: HashSorter::pvGroup -- do not edit *)\n\n'
+            'From Coq Require Import ZArith Bool List.\nFrom MomoCommon Require Import GenPrelude.\nFrom C17 Require Import SelPrims.\n'
+            'Local Open Scope Z_scope.\n\nSection Gen_Group_sec.\nVariable eqf : Z -> Z -> bool.\nVariable loop_fuel : nat.\n\n' + txt + '\n\nEnd Gen_Group_sec.\n')
